@@ -74,7 +74,7 @@ Definition window64k (content : list Z) : list Z :=
   if n <=? 65536 then content else skipn (Z.to_nat (n - 65536)) content.
 
 (* blocks of a frame in the current format; [rcontent] = content so far, reversed per block list *)
-Fixpoint spec_blocks (fuel : nat) (dom : bcdom) (d : fdesc) (l : list Z) (content : list Z)
+Fixpoint spec_blocks (fuel : nat) (dom : bcdom) (strict : bool) (d : fdesc) (l : list Z) (content : list Z)
   : option (list Z * list Z) :=
   match fuel with O => None | S f =>
   match u32le l with
@@ -85,6 +85,7 @@ Fixpoint spec_blocks (fuel : nat) (dom : bcdom) (d : fdesc) (l : list Z) (conten
       let raw := 2147483648 <=? w in
       let size := w mod 2147483648 in
       if fd_max d <? size then None else
+      if strict && (size =? 0) then None else
       match splitn size r0 [] with
       | None => None
       | Some (stored, r1) =>
@@ -101,7 +102,7 @@ Fixpoint spec_blocks (fuel : nat) (dom : bcdom) (d : fdesc) (l : list Z) (conten
                    end
                  else Some r1) with
           | None => None
-          | Some r2 => spec_blocks f dom d r2 (content ++ dec)
+          | Some r2 => spec_blocks f dom strict d r2 (content ++ dec)
           end
         end
       end
@@ -109,7 +110,7 @@ Fixpoint spec_blocks (fuel : nat) (dom : bcdom) (d : fdesc) (l : list Z) (conten
 
 (* legacy frame body: size-prefixed compressed blocks until the input ends; a repeated legacy
    magic starts a concatenated frame; each block decodes to at most 8 MiB *)
-Fixpoint spec_legacy (fuel : nat) (l : list Z) (content : list Z) : option (list Z * list Z) :=
+Fixpoint spec_legacy (fuel : nat) (strict : bool) (l : list Z) (content : list Z) : option (list Z * list Z) :=
   match fuel with O => None | S f =>
   match l with
   | [] => Some (content, [])
@@ -117,14 +118,21 @@ Fixpoint spec_legacy (fuel : nat) (l : list Z) (content : list Z) : option (list
     match u32le l with
     | None => None
     | Some (w, r0) =>
-      if w =? MAGIC_LEGACY then spec_legacy f r0 content
+      if w =? MAGIC_LEGACY then spec_legacy f strict r0 content
+      else if negb strict && (2147483648 <=? w) then
+        (* not part of the legacy format: the library stores an incompressible block raw and flags
+           it in the size word (finding F17); accepted only by the non-strict reading *)
+        match splitn (w mod 2147483648) r0 [] with
+        | None => None
+        | Some (stored, r1) => if 8388608 <? len stored then None else spec_legacy f strict r1 (content ++ stored)
+        end
       else
         match splitn w r0 [] with
         | None => None
         | Some (stored, r1) =>
-          match spec_decode_x stored [] 8388608 with
+          match (match stored with [] => Some [] | _ => spec_decode_x stored [] 8388608 end) with
           | None => None
-          | Some dec => spec_legacy f r1 (content ++ dec)
+          | Some dec => spec_legacy f strict r1 (content ++ dec)
           end
         end
     end
@@ -142,12 +150,12 @@ Fixpoint frame_spec_fuel (fuel : nat) (dom : bcdom) (strict : bool) (l : list Z)
       | None => None
       | Some (n, r1) => match splitn n r1 [] with None => None | Some (_, r2) => frame_spec_fuel f dom strict r2 end
       end
-    else if m =? MAGIC_LEGACY then spec_legacy (S (length r0)) r0 []
+    else if m =? MAGIC_LEGACY then spec_legacy (S (length r0)) strict r0 []
     else if m =? MAGIC then
       match parse_desc strict r0 with
       | None => None
       | Some (d, r1) =>
-        match spec_blocks (S (length r1)) dom d r1 [] with
+        match spec_blocks (S (length r1)) dom strict d r1 [] with
         | None => None
         | Some (content, r2) =>
           match (if fd_cc d then
